@@ -119,7 +119,28 @@ OversizeCases(cl, a) ==
             sc \in {<<Chunk(m + 1)>>, <<Chunk(m + 10)>>, <<Chunk(Len(big) - 1), Chunk(m + 2 - Len(big))>>,
                     <<Chunk(100), Empty("deadline"), Chunk(Len(big) - 101), Chunk(m + 10 - (Len(big) - 1))>>}}
 
+(* histories of request calls on ONE client instance: a fault, then the same client must still answer *)
+SeqArgs == Args(3, 1, 10, 2, <<>>, <<>>, 0, 4660)
+SeqCases(cl) ==
+    LET a == SeqArgs
+        R == ReplyTo(FramingOf(cl), a, <<1, 0>>)
+        X == ExcReplyTo(FramingOf(cl), a, 2)
+        ok == Exch(cl, a, R, <<Chunk(3), Chunk(Len(R) - 3)>>, "none", 0, 0)
+        nc == Exch(cl, a, R, <<>>, "notconnected", 0, 0)
+        firsts == {Exch(cl, a, R, <<>>, "nilreq", 0, 0),
+                   Exch(cl, a, R, <<Chunk(3)>>, "stall", 0, 0),
+                   Exch(cl, a, R, <<Chunk(3), Term("ioerr")>>, "ioerr", 0, 0),
+                   Exch(cl, a, R, <<Term("writeerr")>>, "writeerr", 0, 0),
+                   Exch(cl, a, R, <<Chunk(3), Term("cancel")>>, "cancel", 0, 0),
+                   Exch(cl, a, X, <<Chunk(Len(X))>>, "none", 0, 0),
+                   ok}
+    IN {[op |-> "seq", seq |-> <<f, ok, ok>>] : f \in firsts}
+       \cup {[op |-> "seq", seq |-> <<f, g, ok>>] : f \in firsts, g \in firsts}
+       \cup (IF cl = "serial" THEN {[op |-> "seq", seq |-> <<nc, nc, nc>>]}
+             ELSE {[op |-> "seq", seq |-> <<nc, nc, ok, ok>>], [op |-> "seq", seq |-> <<nc, ok, ok>>]})
+
 C08Cases(z) ==
+    UNION {SeqCases(cl) : cl \in Clients} \cup
     UNION {FaultCases(cl, a, ReplyTo(FramingOf(cl), a, <<2, 2>>)) : cl \in Clients, a \in ReqShapes("s")}
     \cup UNION {FaultCases(cl, a, ReplyTo(FramingOf(cl), a, <<100, 100>>)) : cl \in Clients, a \in {x \in ReqShapes("l") : x.fc \in {1, 3}}}
     \cup UNION {FaultCases(cl, a, ExcReplyTo(FramingOf(cl), a, 2)) : cl \in Clients, a \in {x \in ReqShapes("s") : x.fc \in {3, 17, 23}}}
@@ -161,7 +182,7 @@ Init == c \in CaseSet(0)
 Next == UNCHANGED c
 \* the replies the generator builds are what the exchange specification calls proper replies
 SelfConsistent ==
-    c.op = "exch" /\ c.fault = "none" /\ Set = "c07" =>
+    c.op = "exch" /\ Set = "c07" /\ c.fault = "none" =>
         LET fr == FramingOf(c.client) IN ProperNormal(fr, ReqOfArgs(c.req), c.reply) \/ ProperException(fr, c.reply)
 Emit == PrintT(<<"CASE", ToJson(c)>>)
 =============================================================================
